@@ -73,7 +73,8 @@ class ZNCCTemplateMatcher(BaseTemplateMatcher):
 
         pos = find_maxima(landscale_max, min_distance, min_score)
         argmax_indices = np.array(
-            [img_argmax[tuple(np.round(p).astype(np.int32))] for p in pos]
+            [img_argmax[tuple(np.round(p).astype(np.int32))] for p in pos],
+            dtype=np.intp,
         )
         score = _sample_score(landscale_max, pos)
         quats = self._index_to_quaternions(argmax_indices)
@@ -146,7 +147,8 @@ def find_maxima(img, min_distance: float, min_intensity: float):
     structure = np.stack([s0, s1, s0])
     label_img, nfeat = ndi.label(is_maxima, structure=structure)
     centers = ndi.center_of_mass(img, label_img, range(1, nfeat + 1))
-    return np.array(centers, dtype=np.float32)
+    # (0, ndim) rather than (0,) when nothing is found
+    return np.array(centers, dtype=np.float32).reshape(-1, img.ndim)
 
 
 def simple_pick(img: NDArray[np.float32], pos: NDArray[np.float32]):
